@@ -720,3 +720,81 @@ def c16(tier):
                     "the `(` of calls/conditions (variables), after `:` in parameter/variable declarations (STRUCT items = declared types + "
                     "int), and in top-level gaps (only proc/type/main starters).",
                     ["items compared per kind as label sets; snippets and keywords are ignored"], "canon,nl")
+
+
+# ---------------------------------------------------------------------------
+# C01  incremental re-analysis equals analysis from scratch
+
+def c01(tier):
+    c = Check("C01", tier)
+    c.rule = ("SplSession continues finished programs of the derivation machine with edits: EditTokens(i, j, repl) over the 36-spelling token "
+              "alphabet, character-level edits that change token boundaries, batches. TLC explores EVERY token edit of every program up to "
+              "the token bound as a transition (edit counts must agree with the replay) and simulates histories of 4 edits on 120-token "
+              "programs; further base documents: all single-fault typed programs (documents carrying build/semantic diagnostics), every "
+              "single-token damage of every small program (documents carrying error nodes; two-step histories), and all texts of the "
+              "lexer's look-ahead alphabet with all character edits (soup). After EVERY step AnalyzedSource::update must equal "
+              "AnalyzedSource::new(text) in tokens, tree with attached diagnostics, symbol table and reported errors (the property's own "
+              "definition of the right answer). Server level: 1-edit histories as didChange, $/verif/text and final diagnostics vs a fresh "
+              "open, hook traces validated by TraceServer (inc_eq_fresh at every change).")
+    vlib.build_harness()
+    exe_v = vlib.build_server(True)
+    # (1) exhaustive single edits with edit-count binding
+    cfg = "MC_SplSession_small" if tier == "quick" else "MC_SplSession_n12"
+    res = vlib.tlc("MC_SplSession", cfg + ".cfg", "c01_" + cfg, timeout=6000, heap="16g")
+    vlib.require_coverage(res, ["Open", "AnyTokenEdit"])
+    c.add_tlc(res, cfg)
+    r = _tag_mode(_fe("session", res["out"], "c01_" + cfg), "session")
+    want = res["coverage"]["AnyTokenEdit"][0]     # distinct successor states = distinct (program, edit) pairs
+    if r["counters"].get("edits", 0) != want:
+        raise ToolError("binding: harness enumerated %d token edits, TLC %d" % (r["counters"].get("edits", 0), want))
+    c.add_harness(r, cfg + " (every token edit)", traces=want)
+    os.remove(res["out"])
+    # (2) larger valid programs and faulty programs as base documents, single edits (strided)
+    for module, cfg2, stride in ([("MC_SplGrammar", "MC_SplGrammar_n15", 40), ("MC_SplStatic", "MC_SplStatic_faults", 60)] if tier == "quick"
+                                 else [("MC_SplGrammar", "MC_SplGrammar_n15", 1), ("MC_SplGrammar", "MC_SplGrammar_stmt", 8), ("MC_SplStatic", "MC_SplStatic_faults18", 3)]):
+        res = vlib.tlc(module, cfg2 + ".cfg", "c01_" + cfg2, timeout=6000, heap="16g")
+        c.add_tlc(res, cfg2)
+        r = _tag_mode(_fe("session", res["out"], "c01_" + cfg2, ["estride=%d" % stride, "seed=%d" % vlib.seed()]), "session")
+        c.add_harness(r, cfg2 + " (single edits)", traces=r["counters"].get("edits", 0))
+        if cfg2 == "MC_SplGrammar_n15":
+            # (3) two-step histories: every damage of a small program is a base document (documents with error nodes)
+            sm = os.path.join(vlib.OUT, "c01_small.out")
+            with open(res["out"], "rb") as fi, open(sm, "wb") as fo:
+                for i, line in enumerate(l for l in fi if l.startswith(b'<<"PROG"')):
+                    if i % (97 if tier == "quick" else 11) == 0:
+                        fo.write(line)
+            r = _tag_mode(_fe("session2", sm, "c01_twostep", ["estride=%d" % (11 if tier == "quick" else 3), "dstride=%d" % (7 if tier == "quick" else 2)]), "session2")
+            c.add_harness(r, "two-step histories (damaged base documents)", traces=r["counters"].get("edits", 0))
+            os.remove(sm)
+        os.remove(res["out"])
+    # (4) soup
+    res = vlib.tlc("MC_LexerInc", ("MC_LexerInc_soup" if tier == "quick" else "MC_LexerInc_quick") + ".cfg", "c01_soup", timeout=6000, coverage=False)
+    c.add_tlc(res, "MC_LexerInc (soup texts, all character edits)")
+    r = _tag_mode(_fe("soup", res["out"], "c01_soup"), "soup")
+    if r["counters"].get("edits", 0) != res["generated"] - 1:
+        raise ToolError("binding: soup replayed %d edits, TLC %d" % (r["counters"].get("edits", 0), res["generated"] - 1))
+    c.add_harness(r, "soup (all character edits of all short texts)", traces=r["counters"].get("edits", 0))
+    os.remove(res["out"])
+    # (5) simulated histories, in process
+    procs, num = (8, 25) if tier == "quick" else (16, 400)
+    res = vlib.tlc_sim_multi("MC_SplSession", "Sim_SplSession.cfg", "c01_hist", procs, num, 3000, timeout=3000)
+    c.add_tlc(res, "Sim_SplSession (histories of 4 edits: token edits, batches, one character edit)")
+    r = _tag_mode(_fe("history", res["out"], "c01_hist"), "history")
+    c.add_harness(r, "simulated histories")
+    os.remove(res["out"])
+    # (6) server level
+    procs, num = (4, 25) if tier == "quick" else (16, 150)
+    res = vlib.tlc_sim_multi("MC_SplSession", "Sim_SplSession1.cfg", "c01_hist1", procs, num, 3000, timeout=3000)
+    c.add_tlc(res, "Sim_SplSession1 (1-edit histories for the server)")
+    trace = os.path.join(vlib.OUT, "c01_trace.ndjson")
+    r = _srv("histsession", res["out"], "c01_srv", exe_v, ["trace_out=" + trace])
+    c.add_harness(r, "server: didChange histories, text + diagnostics vs fresh open")
+    validate_server_trace(c, trace, "c01", True, "TraceServer(inc_eq_fresh at every change)")
+    os.remove(res["out"])
+    os.remove(trace)
+    c.assumptions = ["the oracle is definitional: the same code analysing the resulting text from scratch (the property defines it so)",
+                     "known finding C01-lost-subparse-diagnostic is identified by its signature (tree equal, an `expected ...` diagnostic lost or "
+                     "re-attached); any divergence with another signature is a violation",
+                     "token edits are applied to the canonical rendering (one blank between tokens)"]
+    c.exhaustive = True
+    c.finish()
